@@ -17,7 +17,7 @@ PROPS = {
  "C08": dict(needs=["Base", "Num", "NumProofs", "Lex", "ParseProofs", "Strings", "Builtins", "Interp", "LinkNames", "ImpSearch"], gen=["GenParse", "GenNames", "GenIO"], slices=[("slices_text", "c08_codec"), ("slices_text", "c08_spellings"), ("slices_world", "c15_search")]),
  "C09": dict(needs=["Base", "Num", "NumProofs", "Lex", "ParseProofs"], gen=["GenParse"], slices=[("slices_text", "c09_parse")]),
  "C14": dict(needs=REFINE + ["Files", "FilesProofs", "FilesTotal", "LinkNames", "RunG", "IOSpec", "FileIO"], gen=["GenIO"], slices=[("slices_world", "c14_histories"), ("slices_world", "c14_total_histories"), ("slices_world", "c14_in_model"), ("slices_world", "c14_faults")]),
- "C15": dict(needs=["ImpSearch", "ImportProofs", "ImpLoad"], gen=[], slices=[("slices_world", "c15_search"), ("slices_world", "c15_semantics")]),
+ "C15": dict(needs=REFINE + ["ImpSearch", "ImportProofs", "ImpLoad", "ModFS", "RunG", "ImportMain", "Pure"], gen=[], slices=[("slices_world", "c15_search"), ("slices_world", "c15_semantics"), ("slices_world", "c15_in_model")]),
  "C06": dict(needs=CORE + ["Float", "Eq", "Complex"], gen=[], slices=[("slices_values", "c06_eq")]),
  "C12": dict(needs=REFINE + ["SeqProofs", "SliceReal", "RunG", "SeqSpec"], gen=[], slices=[("slices_values", "c12_seq")]),
  "C16": dict(needs=CORE + ["RunG", "Codec", "Bits", "Utf", "Utf16"], gen=[], slices=[("slices_values", "c16_codecs")]),
